@@ -9,6 +9,8 @@ import (
 	"bytes"
 	"context"
 	"fmt"
+	"github.com/containerd/stargz-snapshotter/estargz"
+	"github.com/containerd/stargz-snapshotter/estargz/zstdchunked"
 	"io"
 	"path/filepath"
 	"sort"
@@ -92,7 +94,7 @@ func run(t *testing.T, tape *simrt.Tape) *hx.Outcome {
 	fcfg := config.Config{
 		HTTPCacheType: []string{"memory", ""}[c(2)], FSCacheType: []string{"memory", ""}[c(2)],
 		PrefetchTimeoutSec: prefetchTimeout, NoPrometheus: true,
-		PrefetchAsyncSize: []int64{0, 0, 64}[c(3)],
+		PrefetchAsyncSize:    []int64{0, 64, 700, 6000}[c(4)],
 		BlobConfig:           config.BlobConfig{ChunkSize: []int64{16, 64, 300, 50000}[c(4)], PrefetchChunkSize: []int64{0, 100, 1000}[c(3)], FetchTimeoutSec: 30, MaxRetries: 1, MinWaitMSec: 10, MaxWaitMSec: 100, ValidInterval: 600},
 		DirectoryCacheConfig: config.DirectoryCacheConfig{MaxLRUCacheEntry: 1 + c(3), MaxCacheFds: 1 + c(3), SyncAdd: c(2) == 1, Direct: c(3) == 0},
 	}
@@ -190,6 +192,7 @@ func run(t *testing.T, tape *simrt.Tape) *hx.Outcome {
 		type waitRec struct {
 			who        string
 			start, end time.Duration
+			ok         bool
 		}
 		var waitRecs []waitRec
 		nPref := 1 + s.Tape.Draw("cfg", 2)
@@ -213,7 +216,7 @@ func run(t *testing.T, tape *simrt.Tape) *hx.Outcome {
 				err := l.WaitForPrefetchCompletion()
 				el := s.Now() - t0
 				waits++
-				waitRecs = append(waitRecs, waitRec{t.Label, t0, s.Now()})
+				waitRecs = append(waitRecs, waitRec{t.Label, t0, s.Now(), err == nil})
 				s.Event("%s waited %v ok=%v", t.Label, el, err == nil)
 				if el > time.Duration(prefetchTimeout)*time.Second {
 					s.Fail("wait-exceeds-timeout", "WaitForPrefetchCompletion returned after %v of simulated time; the configured prefetch timeout is %ds", el, prefetchTimeout)
@@ -240,6 +243,36 @@ func run(t *testing.T, tape *simrt.Tape) *hx.Outcome {
 			}
 			if pEnd >= 0 && w.end > lim {
 				s.Fail("wait-outlasts-prefetch", "%s: WaitForPrefetchCompletion started at %v and returned at %v, but prefetch had ended at %v (prefetch errors: %v)", w.who, w.start, w.end, pEnd, perr)
+				return
+			}
+		}
+		// ... and not earlier, unless the timeout elapsed or the prefetch is larger than the configured
+		// asynchronous threshold (then waiters are not held up by design)
+		effective := prefetchSize
+		if effective > int64(len(blob)) {
+			effective = int64(len(blob))
+		}
+		if kind == "prefetch-landmark" {
+			if er, err := estargz.Open(io.NewSectionReader(bytes.NewReader(blob), 0, int64(len(blob))), estargz.WithDecompressors(new(zstdchunked.Decompressor))); err == nil {
+				if e, ok := er.Lookup(estargz.PrefetchLandmark); ok {
+					effective = e.Offset
+				}
+			} else {
+				effective = -1 // unknown: the early-return oracle is not applied
+			}
+		}
+		async := fcfg.PrefetchAsyncSize > 0 && effective > fcfg.PrefetchAsyncSize
+		// (the first waiter that times out marks the wait as over for everybody: later returns are not early)
+		firstTimeout := time.Duration(-1)
+		for _, w := range waitRecs {
+			if !w.ok && (firstTimeout < 0 || w.end < firstTimeout) {
+				firstTimeout = w.end
+			}
+		}
+		for _, w := range waitRecs {
+			if w.ok && effective >= 0 && pEnd > w.end && w.end-w.start < time.Duration(prefetchTimeout)*time.Second && !async && kind != "no-prefetch-landmark" &&
+				(firstTimeout < 0 || w.end < firstTimeout) {
+				s.Fail("wait-returns-early", "%s: WaitForPrefetchCompletion returned nil at %v (started %v, timeout %ds) while prefetch only ended at %v; the prefetch of %d bytes is not above the asynchronous threshold %d", w.who, w.end, w.start, prefetchTimeout, pEnd, effective, fcfg.PrefetchAsyncSize)
 				return
 			}
 		}
@@ -380,12 +413,12 @@ func lastReqs(reg *simreg.Registry, mark int) string {
 
 func TestC15(t *testing.T) {
 	hx.Main(t, hx.Prop{
-		ID:   "C15",
-		Rule: "each run draws a layer kind (built with a prioritized set -> prefetch landmark; built without -> no-prefetch landmark; hand-written blob without landmarks), build options, prefetch size 0..1.5x blob, async threshold, prefetch chunk size, registry chunk size, memory/directory caches with tiny LRUs, metadata store, prefetch timeout 2s/10s, background concurrency and silence period, and a registry that is calm in half of the runs and otherwise fails, stalls and delays requests; phase 1 runs 1-2 concurrent Prefetch calls and 1-2 waiters (WaitForPrefetchCompletion, also repeated), then checks: no-prefetch landmark => zero blob requests; prefetch returned nil everywhere => reading every prioritized file (or the first min(size, blob) bytes when there is no landmark) adds zero registry requests; every wait returns within the configured timeout of simulated time. Phase 2 runs 1-2 BackgroundFetch calls with on-demand readers arriving; if it returned nil every regular file must read fully with the registry unreachable. non-trivial = a locality or offline check was performed; distinct = schedule hash x configuration",
-		Run:  run,
+		ID:               "C15",
+		Rule:             "each run draws a layer kind (built with a prioritized set -> prefetch landmark; built without -> no-prefetch landmark; hand-written blob without landmarks), build options, prefetch size 0..1.5x blob, async threshold, prefetch chunk size, registry chunk size, memory/directory caches with tiny LRUs, metadata store, prefetch timeout 2s/10s, background concurrency and silence period, and a registry that is calm in half of the runs and otherwise fails, stalls and delays requests; phase 1 runs 1-2 concurrent Prefetch calls and 1-2 waiters (WaitForPrefetchCompletion, also repeated), then checks: no-prefetch landmark => zero blob requests; prefetch returned nil everywhere => reading every prioritized file (or the first min(size, blob) bytes when there is no landmark) adds zero registry requests; every wait returns within the configured timeout of simulated time. Phase 2 runs 1-2 BackgroundFetch calls with on-demand readers arriving; if it returned nil every regular file must read fully with the registry unreachable. non-trivial = a locality or offline check was performed; distinct = schedule hash x configuration",
+		Run:              run,
 		PanicIsViolation: true,
 		HangIsViolation:  true,
-		Components: map[string]string{"fs/layer (Prefetch/Wait/BackgroundFetch), fs/reader, fs/remote, cache, task": "real (instrumented copy)", "metadata stores": "real", "registry": "stub with request log (simreg)", "kernel FUSE": "stub (node interfaces)"},
-		Assumptions: []string{"the legal cache-loss injection is off for the zero-request clauses (a lost entry legitimately causes a refetch); LRU pressure stays on", "'prefetch completed' = every concurrent Prefetch call returned nil (later callers of the sync.Once get nil even if the first failed)"},
+		Components:       map[string]string{"fs/layer (Prefetch/Wait/BackgroundFetch), fs/reader, fs/remote, cache, task": "real (instrumented copy)", "metadata stores": "real", "registry": "stub with request log (simreg)", "kernel FUSE": "stub (node interfaces)"},
+		Assumptions:      []string{"the legal cache-loss injection is off for the zero-request clauses (a lost entry legitimately causes a refetch); LRU pressure stays on", "'prefetch completed' = every concurrent Prefetch call returned nil (later callers of the sync.Once get nil even if the first failed)"},
 	})
 }
